@@ -30,6 +30,8 @@ CONSTANTS
               \* e.g. " skipper", " Skip", " xunwrap-block", " names='a'"
   TagPad,     \* characters between the tag body and the end delimiter (and behind the start delimiter of closing tags stays
               \* none): <<>> or e.g. <<SP>> ("<tag a='b' >"), the README's padded style
+  EdgeCh,     \* characters glued to a tag wherever text shares the line with it (behind "c<n>; " in front of an opening tag,
+              \* directly behind a closing tag that is followed by text): <<>> or e.g. a multi-byte character
   WideCode,   \* TRUE: code lines consist of the wide blanks U+3000 / U+00A0 only (no blank in the sense of the tool)
   QuoteCh,    \* quote character of attribute values: 39 (') or 34 (")
   FlagsFirst, \* TRUE: the flag attributes come before name / to instead of after them
@@ -133,6 +135,8 @@ MKinds == {"M1", "M2", "M3", "M4"}
 KIdx(k) == IF k \in {"T1", "M1"} THEN 1 ELSE IF k \in {"T2", "M2"} THEN 2 ELSE IF k \in {"T3", "M3"} THEN 3 ELSE 4
 TagName(kd) == IF kd[1] \in {"R", "P", "S", "SP", "NV", "NN", "XR", "RB", "PB"} \cup MKinds THEN RM
                ELSE IF kd[1] \in {"T", "F", "SF", "XT", "TB"} \cup TKinds THEN TL
+               ELSE IF kd[1] = "US" THEN <<120>> \o RM            \* a letter in front of the registered name: the registered name is a proper suffix
+               ELSE IF kd[1] = "UST" THEN <<120>> \o TL
                ELSE IF kd[1] = "UX" THEN RM \o <<120>>            \* the registered name with a letter appended
                ELSE IF kd[1] = "UP" THEN SubSeq(RM, 1, Len(RM) - 1) \o <<45>>   \* its proper prefix plus a dash
                ELSE <<120, 120>>   \* xx
@@ -147,7 +151,7 @@ CondAttr(kd) ==
          ELSE IF kd[1] = "RB" THEN <<32, 110, 97, 109, 101>> \o EqS \o Q \o <<97, 32>> \o Q                      \* name='a ' (ready iff 'a ' is a target)
          ELSE IF kd[1] = "PB" THEN <<32, 110, 97, 109, 101>> \o EqS \o Q \o <<32, 97>> \o Q                      \* name=' a'
          ELSE IF kd[1] = "XR" THEN <<32, 116, 111>> \o EqS \o Q \o PastTo \o Q                                       \* marker tag, `to` only
-         ELSE IF kd[1] \in {"R", "S", "U", "UX", "UP", "XT"} THEN <<32, 110, 97, 109, 101>> \o EqS \o Q \o <<97>> \o Q                 \* name='a'
+         ELSE IF kd[1] \in {"R", "S", "U", "UX", "UP", "XT", "US", "UST"} THEN <<32, 110, 97, 109, 101>> \o EqS \o Q \o <<97>> \o Q                 \* name='a'
          ELSE IF kd[1] \in {"P", "SP"} THEN <<32, 110, 97, 109, 101>> \o EqS \o Q \o <<98>> \o Q             \* name='b'
          ELSE IF kd[1] = "T" THEN <<32, 116, 111>> \o EqS \o Q \o PastTo \o Q
          ELSE IF kd[1] \in TKinds THEN <<32, 116, 111>> \o EqS \o Q \o Tos[KIdx(kd[1])] \o Q
@@ -161,6 +165,9 @@ OpenTag(kd, n) ==
      \o TagPad \o DE
 CloseTag(kd) == DS \o <<47>> \o TagName(kd) \o TagPad \o DE
 
+\* the text of a piece of code sharing its line with a tag: "c<n>;" or, under MbCode, multi-byte characters only
+CodeBit(ch, n) == IF MbCode THEN <<12354 + n, 233, 128512 + n>> ELSE <<ch>> \o Digits(n) \o <<59>>
+
 RECURSIVE Indent(_)
 Indent(k) == IF k <= 0 THEN <<>> ELSE Unit \o Indent(k - 1)
 
@@ -170,12 +177,12 @@ LineTextOf(l) ==
                                           ELSE <<99>> \o CodeA \o Digits(l.n) \o CodeB \o <<59>>) \o Suffix  \* c<n>;
   ELSE IF l.k = "pair" THEN Indent(l.ind) \o OpenTag(PairKind, 90 + l.n) \o <<105>> \o Digits(l.n) \o CloseTag(PairKind)
                                           \o OpenTag(PairKind, 190 + l.n) \o <<106>> \o Digits(l.n) \o CloseTag(PairKind)
-  ELSE IF l.k = "tail" THEN Indent(l.ind) \o <<99>> \o Digits(l.n) \o <<59, 32>> \o OpenTag(l.kind, l.n) \o <<116>> \o Digits(l.n) \o CloseTag(l.kind)   \* c<n>; <tag>t<n></tag>
+  ELSE IF l.k = "tail" THEN Indent(l.ind) \o CodeBit(99, l.n) \o <<32>> \o EdgeCh \o OpenTag(l.kind, l.n) \o <<116>> \o Digits(l.n) \o CloseTag(l.kind)   \* c<n>; <tag>t<n></tag>
   ELSE IF l.k = "opent" THEN Indent(l.ind) \o OpenTag(l.kind, l.n) \o <<32>> \o OpenTag(l.kind2, l.n + 1) \o <<116>> \o Digits(l.n + 1) \o CloseTag(l.kind2)
   ELSE IF l.k = "closel" THEN Indent(l.ind) \o OpenTag(l.kind2, l.n) \o <<116>> \o Digits(l.n) \o CloseTag(l.kind2) \o <<32>> \o CloseTag(l.kind)
-  ELSE IF l.k = "lead" THEN Indent(l.ind) \o OpenTag(l.kind, l.n) \o <<116>> \o Digits(l.n) \o CloseTag(l.kind) \o <<32, 99>> \o Digits(l.n) \o <<59>>   \* <tag>t<n></tag> c<n>;
-  ELSE IF l.k = "copen" THEN Indent(l.ind) \o <<111>> \o Digits(l.n) \o <<59, 32, 123, 32>> \o OpenTag(l.kind, l.n)          \* o<n>; { <tag>
-  ELSE IF l.k = "cclose" THEN Indent(l.ind) \o CloseTag(l.kind) \o <<100, 32, 32, 32, 61, 32>> \o Digits(l.n) \o <<59>>      \* </tag>d   = <n>;
+  ELSE IF l.k = "lead" THEN Indent(l.ind) \o OpenTag(l.kind, l.n) \o <<116>> \o Digits(l.n) \o CloseTag(l.kind) \o EdgeCh \o <<32>> \o CodeBit(99, l.n)   \* <tag>t<n></tag> c<n>;
+  ELSE IF l.k = "copen" THEN Indent(l.ind) \o CodeBit(111, l.n) \o (IF MbCode THEN <<32>> ELSE <<32, 123, 32>>) \o EdgeCh \o OpenTag(l.kind, l.n)          \* o<n>; { <tag>
+  ELSE IF l.k = "cclose" THEN Indent(l.ind) \o CloseTag(l.kind) \o EdgeCh \o (IF MbCode THEN <<32>> \o CodeBit(100, l.n) ELSE <<100, 32, 32, 32, 61, 32>> \o Digits(l.n) \o <<59>>)      \* </tag>d   = <n>;
   ELSE IF l.k = "blank" THEN <<>>
   ELSE IF l.k = "ws" THEN [i \in 1..l.ind |-> Unit[((i - 1) % Len(Unit)) + 1]]        \* the characters of the unit, cyclically
   ELSE IF l.k = "open" THEN Indent(l.ind) \o OpenTag(l.kind, l.n)
